@@ -228,6 +228,8 @@ pub fn band_states_with_headless(p: usize) -> Vec<BandState> {
     v.push(BandState::Headless { hunks: vec![(0..p).collect()], tail: false });
     v.push(BandState::TornHead { hunks: vec![], tail: false });
     v.push(BandState::TornHead { hunks: vec![(0..p).collect()], tail: false });
+    // a complete band whose head was emptied afterwards: it ends the chain and lists nothing
+    v.push(BandState::TornHead { hunks: vec![(0..p).collect()], tail: true });
     v
 }
 
